@@ -201,6 +201,14 @@ func (i *interpreter) render(fr *frame, verb byte, flags string, a iface) symstr
 		return S("<stub>")
 	}
 	v := a.v
+	// *big.Int implements fmt.Formatter; %d/%v/%s print its decimal String()
+	if ts := a.t.String(); (ts == "*math/big.Int") && (verb == 'd' || verb == 'v' || verb == 's') {
+		if p, ok := v.(*value); ok && p != nil {
+			if m := i.findMethod(a.t, "String"); m != nil {
+				return symstr(strBytes(call(i, fr, token.NoPos, m, []value{v})))
+			}
+		}
+	}
 	// error / Stringer
 	if verb == 'v' || verb == 's' || verb == 'q' {
 		if p, ok := v.(*value); ok && p == nil {
